@@ -387,7 +387,11 @@ func (s *state) socketSweep() {
 				audit("refused-dial"+suffix, map[string]any{"err": fmt.Sprint(err)})
 			}
 			// 3. clients that never get past the demultiplexer: silent, 1-2 bytes then close, garbage
-			for i, payload := range [][]byte{nil, {0x13}, {0x13, '/'}, []byte("GET"), []byte("\x16\x03\x01garbage-not-tls"), []byte("\x13/multistream/1.0.0\n\x07/nope/\n")} {
+			// ... and complete HTTP requests that reach the websocket listener but that its upgrader has to refuse
+			httpReq := func(h string) []byte { return []byte("GET / HTTP/1.1\r\nHost: verif\r\n" + h + "\r\n") }
+			for i, payload := range [][]byte{nil, {0x13}, {0x13, '/'}, []byte("GET"), []byte("\x16\x03\x01garbage-not-tls"), []byte("\x13/multistream/1.0.0\n\x07/nope/\n"),
+				httpReq(""), httpReq("Connection: Upgrade\r\nUpgrade: websocket\r\nSec-WebSocket-Version: 13\r\n"),
+				httpReq("Connection: Upgrade\r\nUpgrade: websocket\r\nSec-WebSocket-Version: 12\r\nSec-WebSocket-Key: dGhlIHNhbXBsZSBub25jZQ==\r\n")} {
 				for _, hold := range []time.Duration{0, 300 * time.Millisecond} {
 					if dead {
 						continue
@@ -398,6 +402,23 @@ func (s *state) socketSweep() {
 					}
 					if payload != nil {
 						c.Write(payload)
+					}
+					if len(payload) > 10 && string(payload[:4]) == "GET " {
+						// wait for the listener's answer: the request went all the way to the upgrader
+						c.SetReadDeadline(time.Now().Add(3 * time.Second))
+						buf := make([]byte, 512)
+						if n, _ := c.Read(buf); n > 12 && string(buf[:5]) == "HTTP/" {
+							s.r.Count("socket_http_requests_answered_"+string(buf[9:12]), 1)
+						}
+						if wsAddr != nil && hold > 0 && i%2 == 1 {
+							// this client stays on the connection: the listener has to give it up by itself
+							s.r.Eval(1)
+							s.r.Count("socket_raw_clients", 1)
+							s.r.Count("socket_refused_upgrade_clients_that_stay_connected", 1)
+							audit("raw-client-stays-after-refused-upgrade", map[string]any{"payload": fmt.Sprintf("%q", payload)})
+							c.Close()
+							continue
+						}
 					}
 					time.Sleep(hold)
 					if i%2 == 0 {
@@ -534,4 +555,5 @@ func (s *state) socketSweep() {
 	s.r.Require("socket_clean_ok", 4)
 	s.r.Require("socket_proxy_faults_fired", 10)
 	s.r.Require("socket_raw_clients", 6)
+	s.r.Require("socket_refused_upgrade_clients_that_stay_connected", 1)
 }
